@@ -234,7 +234,12 @@ def share_idiom(prog, chk, rid, fams=tuple(FAMILIES), floor=10):
                         continue
                     # candidates naming the same block
                     names = {rt, raw, q.no_casts(f.r(rhs_)), "this->" + ptr}
-                    ipos = q.pos_of(f, [i for i, x in incs if x in names or any(same_obj(x, nm) for nm in names)])
+                    def _xobj(i_):      # the counted object behind a pointer local (`Data* const otherData = other.data; increment(otherData->ref)`)
+                        a_ = q.call_args(f, i_)
+                        b_ = f.nodes[f.strip(a_[0])] if a_ else None
+                        return q.no_casts(q.xr(f, b_["c"][0], defs)) if b_ is not None and b_["k"] == "MemberExpr" and b_["c"] else None
+                    ipos = q.pos_of(f, [i for i, x in incs if x in names or any(same_obj(x, nm) for nm in names) or
+                                        (_xobj(i) is not None and any(same_obj(_xobj(i), nm) for nm in names))])
                     # edges on which the block is null / not owned
                     skip = set()
                     for b in f.blocks.values():
